@@ -83,6 +83,30 @@ def h_sint(hx, negative):
     hx.cover("len%d" % n)
 
 
+def h_sint_sequence(hx, same):
+    """two writes in a row with unrelated arguments: the second result depends on its own arguments only"""
+    m1 = hx.int(8 if same else 5, "m1")
+    m2 = m1 if same else hx.int(5, "m2")
+    s1, s2 = hx.flag("neg1"), hx.flag("neg2")
+    z1, z2 = hx.flag("nz1"), hx.flag("nz2")
+    v1 = -m1 if s1 else m1
+    v2 = -m2 if s2 else m2
+    MBXML.write_sintvar(v1, negative_zero=z1)
+    b = MBXML.write_sintvar(v2, negative_zero=z2)
+    r = MBXML.read_sintvar(b, 0)
+    neg2 = OR(v2 < 0, z2)
+    hx.prove(AND(r[1] == len(b), abs(r[0]) == abs(v2), IFF(r[2] == -1, neg2)), "write_sintvar(v2, nz2) right after write_sintvar(v1, nz1): magnitude and sign are those of the second call")
+    hx.cover("sequence")
+
+
+def h_uint_sequence(hx):
+    u1, u2 = hx.int(9, "u1"), hx.int(9, "u2")
+    MBXML.write_uintvar(u1)
+    b2 = MBXML.write_uintvar(u2)
+    hx.prove(EQ(MBXML.read_uintvar(b2, 0), (u2, len(b2))), "write_uintvar(u2) right after write_uintvar(u1) reads back as u2")
+    hx.cover("sequence")
+
+
 def h_ufloat(hx, p):
     I = hx.int(32, "I")
     K = hx.int(7 * p, "K")
@@ -174,7 +198,10 @@ def cases(tier, seed):
     out = [Case("uintvar", "h_uint", {}, covers=["len1", "len2", "len3", "len4", "len5"], budget_s=300, bounds="v symbolic over all 2^32 values, 2 symbolic trailing octets, 1 leading"),
            Case("sintvar-nonneg", "h_sint", dict(negative=False), covers=["len1", "len5"], budget_s=300, bounds="0 <= v <= 2^31-1, negative_zero flag symbolic"),
            Case("sintvar-neg", "h_sint", dict(negative=True), covers=["len1", "len5"], budget_s=300, bounds="-(2^31-1) <= v <= -1"),
-           Case("infotime", "h_infotime", {}, covers=["infotime"], budget_s=120, bounds="six symbolic fields in range")]
+           Case("infotime", "h_infotime", {}, covers=["infotime"], budget_s=120, bounds="six symbolic fields in range"),
+           Case("write-sequence-sint-same", "h_sint_sequence", dict(same=True), covers=["sequence"], budget_s=600, opts=dict(max_paths=8000), bounds="same 8-bit magnitude twice, signs and negative_zero flags of both calls symbolic"),
+           Case("write-sequence-sint-indep", "h_sint_sequence", dict(same=False), covers=["sequence"], budget_s=600, opts=dict(max_paths=8000), bounds="two independent 5-bit magnitudes, signs and negative_zero flags symbolic"),
+           Case("write-sequence-uint", "h_uint_sequence", {}, covers=["sequence"], budget_s=600, opts=dict(max_paths=8000), bounds="two independent 9-bit unsigned values written back to back")]
     for p in ((1, 2) if tier == "quick" else (1, 2, 3)):
         out.append(Case("ufloatvar-p%d" % p, "h_ufloat", dict(p=p), budget_s=600, opts=dict(max_paths=5000), bounds="I < 2^%d, K < 128^%d symbolic" % (min(32, 53 - 7 * p), p)))
         for neg in (False, True):
